@@ -83,6 +83,12 @@ class Skeleton(object):
         from .ladder import positive
         p, neg = positive(test)
         t = self.nexpr(p)
+        # `hdr is <default of next(it, default)>`: "the table has no row at all" -- the other spelling of
+        # `except StopIteration: return`; being past it is not a condition on what is written
+        if isinstance(p, ast.Compare) and len(p.ops) == 1 and isinstance(p.ops[0], ast.Is):
+            sides = {self.nexpr(p.left), self.nexpr(p.comparators[0])}
+            if 'HDR' in sides and (sides - {'HDR'}) <= getattr(self, 'hdr_defaults', set()) and len(sides) == 2:
+                return 'NOHEADER' if (pol != neg) else None
         return t if (pol != neg) else 'not (%s)' % t
 
     # ---- traversal
@@ -110,8 +116,9 @@ class Skeleton(object):
             self.walk(s.finalbody, guards, 'finally')
             return
         if isinstance(s, ast.If):
-            self.walk(s.body, guards + [self.guard_text(s.test, True)], region)
-            self.walk(s.orelse, guards + [self.guard_text(s.test, False)], region)
+            gt, gf = self.guard_text(s.test, True), self.guard_text(s.test, False)
+            self.walk(s.body, guards + ([gt] if gt is not None else []), region)
+            self.walk(s.orelse, guards + ([gf] if gf is not None else []), region)
             return
         if isinstance(s, (ast.For, ast.While)):
             if isinstance(s, ast.For):
@@ -170,6 +177,8 @@ class Skeleton(object):
                     return
                 if _is_next_hdr(v):
                     self.env[name] = ast.Name(id='HDR', ctx=ast.Load())
+                    if len(v.args) == 2:
+                        self.__dict__.setdefault('hdr_defaults', set()).add(self.nexpr(v.args[1]))
                     return
             # single-assignment local: inline
             if self.assign_count.get(name, 0) == 1 or region == 'loop':
@@ -253,7 +262,20 @@ class Skeleton(object):
         # helper functions that receive the sink
         args = list(c.args)
         if any(isinstance(a, ast.Name) and a.id in self.sinks for a in args):
-            payload = ', '.join('SINK' if (isinstance(a, ast.Name) and a.id in self.sinks) else self.nexpr(a) for a in args)
+            # arguments bound to the signature where it is known: pickle.dump(obj, file, protocol) takes protocol by
+            # position or by keyword
+            sig = {'pickle.dump': ['obj', 'file', 'protocol', 'fix_imports', 'buffer_callback'],
+                   'json.dump': ['obj', 'fp']}.get(norm(f))
+            kws = [k for k in c.keywords if k.arg is not None]
+            if sig is not None:
+                for name in sig[len(args):]:
+                    hit = [k for k in kws if k.arg == name]
+                    if not hit:
+                        break
+                    args.append(hit[0].value)
+                    kws = [k for k in kws if k is not hit[0]]
+            payload = ', '.join(['SINK' if (isinstance(a, ast.Name) and a.id in self.sinks) else self.nexpr(a) for a in args] +
+                                ['%s=%s' % (k.arg, self.nexpr(k.value)) for k in sorted(kws, key=lambda k: k.arg)])
             self.effects.append(Effect(norm(f), payload, guards, region, c))
 
 
